@@ -22,9 +22,21 @@ def unhex : List Char → Option (List Nat)
     some ((x * 16 + y) :: rest)
   | _ => none
 
-/-- JSON string literal of a text without characters needing an escape -/
+def hex4 (n : Nat) : List Char :=
+  let d := fun k => "0123456789abcdef".toList.getD ((n / 16 ^ k) % 16) '0'
+  ['\\', 'u', d 3, d 2, d 1, d 0]
+
+/-- JSON string literal the way `json.dumps` (ensure_ascii) writes it -/
 def jstr (s : Str) : String :=
-  "\"" ++ String.ofList (s.flatMap fun c => if c = '"' then ['\\', '"'] else if c = '\\' then ['\\', '\\'] else [c]) ++ "\""
+  "\"" ++ String.ofList (s.flatMap fun c =>
+    if c = '"' then ['\\', '"'] else if c = '\\' then ['\\', '\\']
+    else if c = '\n' then ['\\', 'n'] else if c = '\t' then ['\\', 't'] else if c = '\r' then ['\\', 'r']
+    else if c.toNat = 8 then ['\\', 'b'] else if c.toNat = 12 then ['\\', 'f']
+    else if c.toNat < 32 ∨ (127 ≤ c.toNat ∧ c.toNat < 65536) then hex4 c.toNat
+    else if 65536 ≤ c.toNat then
+      let v := c.toNat - 65536
+      hex4 (0xD800 + v / 1024) ++ hex4 (0xDC00 + v % 1024)
+    else [c]) ++ "\""
 
 def jlist (l : List Str) : String := "[" ++ ",".intercalate (l.map jstr) ++ "]"
 
@@ -52,8 +64,15 @@ def parseCd (tok : String) : Option (Option Cd) :=
   else if tok.startsWith "r" then (tok.drop 1).toString.toNat?.map fun k => some (cdOf k)
   else (unhex tok.toList).map some
 
+def parsePair (kv : String) : Option (Str × Str) :=
+  match kv.splitOn "~" with
+  | [k, v] => do some ((← decStr k), (← decStr v))
+  | _ => none
+
 def parseCode (tok : String) : Option (Option Str) :=
   if tok = "-" then some none
+  else if tok.startsWith "K" then
+    ((tok.drop 1).toString.splitOn ";").mapM parsePair |>.map userCode
   else match tok.toList with
     | c :: _ => if c.isUpper then some (some tok.toList) else (decStr tok).map some
     | [] => none
